@@ -3,7 +3,7 @@
 if ! git -C /repo diff --quiet; then echo "REFUSING: /repo has uncommitted changes to tracked files (commit the contract files first)"; exit 9; fi
 id="$1"; patch="$2"; shift 2
 git -C /repo apply "$patch" || { echo "patch does not apply"; exit 3; }
-(cd /verif && ./check "$id" "$@")
+(cd /verif && GOVC_OUT=/verif/out/try ./check "$id" -no-evidence "$@")
 rc=$?
 git -C /repo checkout -- . 
 echo "exit=$rc"
